@@ -53,6 +53,10 @@ class Origin(Attribute):
         unrecognized attribute (type,length, and vlaue)
         :param value: raw binary value
         """
+        if len(value) != 1:
+            raise excep.UpdateMessageError(
+                sub_error=bgp_cons.ERR_MSG_UPDATE_ATTR_LEN,
+                data=value)
         orgin = ord(value[0:1])
         if orgin not in [cls.IGP, cls.EGP, cls.INCOMPLETE]:
             raise excep.UpdateMessageError(
